@@ -24,6 +24,7 @@ std::recursive_mutex g_mx;
 std::string g_root;                 // with trailing '/'
 vfs::Callback g_cb;
 bool g_inCb = false;
+thread_local bool t_quiet = false;   // the harness's own file accesses on this thread are not steps of the sink
 long long g_nowMs = 0;
 bool g_clock = false;
 std::map<int, std::string> g_fds;   // tracked descriptors -> relative path
@@ -97,7 +98,7 @@ int doOpen(const char *path, int flags, mode_t mode)
     static open_t r = real<open_t>("open64");
     std::string rel;
     std::lock_guard<std::recursive_mutex> lk(g_mx);
-    if (g_inCb || (flags & O_DIRECTORY) || !tracked(path, &rel))
+    if (g_inCb || t_quiet || (flags & O_DIRECTORY) || !tracked(path, &rel))
         return r(path, flags, mode);
     vfs::Event ev;
     ev.call = "open";
@@ -162,7 +163,7 @@ ssize_t write(int fd, const void *buf, size_t n)
 {
     static write_t r = real<write_t>("write");
     std::lock_guard<std::recursive_mutex> lk(g_mx);
-    auto it = g_inCb ? g_fds.end() : g_fds.find(fd);
+    auto it = (g_inCb || t_quiet) ? g_fds.end() : g_fds.find(fd);
     if (it == g_fds.end())
         return r(fd, buf, n);
     vfs::Event ev;
@@ -185,7 +186,7 @@ int close(int fd)
 {
     static close_t r = real<close_t>("close");
     std::lock_guard<std::recursive_mutex> lk(g_mx);
-    auto it = g_inCb ? g_fds.end() : g_fds.find(fd);
+    auto it = (g_inCb || t_quiet) ? g_fds.end() : g_fds.find(fd);
     if (it == g_fds.end())
         return r(fd);
     vfs::Event ev;
@@ -206,7 +207,7 @@ static int doRename(const char *from, const char *to, int which, int fd1, int fd
     static renameat2_t r2 = real<renameat2_t>("renameat2");
     std::string a, b;
     std::lock_guard<std::recursive_mutex> lk(g_mx);
-    const bool t = !g_inCb && tracked(from, &a) && tracked(to, &b);
+    const bool t = !g_inCb && !t_quiet && tracked(from, &a) && tracked(to, &b);
     if (!t)
         return which == 1 ? r1(from, to) : r2(fd1, from, fd2, to, flags);
     vfs::Event ev;
@@ -245,7 +246,7 @@ int link(const char *from, const char *to)
     static link_t r = real<link_t>("link");
     std::string a, b;
     std::lock_guard<std::recursive_mutex> lk(g_mx);
-    if (g_inCb || !tracked(from, &a) || !tracked(to, &b))
+    if (g_inCb || t_quiet || !tracked(from, &a) || !tracked(to, &b))
         return r(from, to);
     vfs::Event ev;
     ev.call = "link";
@@ -272,7 +273,7 @@ int unlink(const char *path)
     static unlink_t r = real<unlink_t>("unlink");
     std::string a;
     std::lock_guard<std::recursive_mutex> lk(g_mx);
-    if (g_inCb || !tracked(path, &a))
+    if (g_inCb || t_quiet || !tracked(path, &a))
         return r(path);
     vfs::Event ev;
     ev.call = "unlink";
@@ -391,8 +392,7 @@ void clearFaults()
 
 void setQuiet(bool on)
 {
-    std::lock_guard<std::recursive_mutex> lk(g_mx);
-    g_inCb = on;
+    t_quiet = on;
 }
 
 long realWrite(int fd, const void *buf, unsigned long n)
